@@ -274,3 +274,39 @@ impl Args {
         (((t as f64) * self.scale) as u64 / self.nshards.max(1)).max(1)
     }
 }
+
+/// entry point of an online-monitor binary
+pub fn main_online(run: fn(&Args, &mut Mon)) {
+    let a = Args::parse();
+    install_panic_hook();
+    let t0 = std::time::Instant::now();
+    let mut m = Mon::new(&a.prop);
+    run(&a, &mut m);
+    let wall = t0.elapsed().as_secs_f64();
+    m.finish(&a.out, &a.hashes, wall);
+}
+
+/// entry point of an event-recording driver: events to stdout for the offline oracle, or (with
+/// `--out <file>` different from "-") discarded, keeping only what the driver itself observed
+/// (used by C16's panic sweep).
+pub fn main_offline(drive: fn(&Args, &mut Mon, &mut crate::events::Sink)) {
+    let a = Args::parse();
+    install_panic_hook();
+    let t0 = std::time::Instant::now();
+    let mut m = Mon::new(&a.prop);
+    if a.out == "-" {
+        let mut sink = crate::events::Sink::stdout();
+        drive(&a, &mut m, &mut sink);
+        let wall = t0.elapsed().as_secs_f64();
+        sink.finish(m, wall);
+    } else {
+        let mut sink = crate::events::Sink::null();
+        drive(&a, &mut m, &mut sink);
+        m.evaluations = m.evaluations.max(sink.n);
+        // canaries of the offline lane are judged by the oracle, not here
+        m.canaries_fed = 0;
+        m.canaries_flagged = 0;
+        let wall = t0.elapsed().as_secs_f64();
+        m.finish(&a.out, &a.hashes, wall);
+    }
+}
